@@ -65,10 +65,17 @@ pub fn build_board(pos: &Pos) -> Board {
     if let Some(e) = pos.ep {
         b.push_en_passant_target(bb(e));
     }
+    // `as _`: the clocks' integer width is the subject's business (u8 at the pinned commit)
     if pos.halfmove != 0 {
-        b.push_halfmove_clock(pos.halfmove.min(255) as u8);
+        b.push_halfmove_clock(pos.halfmove as _);
+        if b.halfmove_clock() as u64 != pos.halfmove as u64 {
+            panic!("harness: half-move clock {} is not representable through push_halfmove_clock", pos.halfmove);
+        }
     }
-    b.set_fullmove_clock((1 + pos.ply).min(255) as u8);
+    b.set_fullmove_clock((1 + pos.ply) as _);
+    if b.fullmove_clock() as u64 != 1 + pos.ply as u64 {
+        panic!("harness: move counter {} is not representable through set_fullmove_clock", 1 + pos.ply);
+    }
     b
 }
 
@@ -83,8 +90,8 @@ pub struct Snap {
     pub turn: u8,
     pub rights: u8,
     pub ep: u64,
-    pub half: u8,
-    pub full: u8,
+    pub half: u32,
+    pub full: u32,
     pub key: u64,
     pub max_seen: u8,
 }
@@ -117,8 +124,8 @@ pub fn snapshot(b: &Board) -> Snap {
         turn: side_of(b.turn()) as u8,
         rights: b.peek_castle_rights(),
         ep: b.peek_en_passant_target().0,
-        half: b.halfmove_clock(),
-        full: b.fullmove_clock(),
+        half: b.halfmove_clock() as u32,
+        full: b.fullmove_clock() as u32,
         key: b.current_position_hash(),
         max_seen: b.max_seen_position_count(),
     }
